@@ -267,6 +267,23 @@ impl AuthorsTbl {
     pub uninterp spec fn view(&self) -> Map<Seq<u8>, Seq<u8>>;
 }
 
+/// `HashSet<NamespaceId>` of open replicas: abstract finite set with the std contains/insert/remove contracts (A-std)
+#[verifier::external_body]
+pub struct OpenSet { _p: u8 }
+impl OpenSet {
+    pub uninterp spec fn view(&self) -> Set<NamespaceId>;
+    #[verifier::external_body]
+    pub fn contains(&self, k: &NamespaceId) -> (r: bool) ensures r == self@.contains(*k) { unimplemented!() }
+    #[verifier::external_body]
+    pub fn insert(&mut self, k: NamespaceId) -> (r: bool)
+        ensures final(self)@ == old(self)@.insert(k), r == !old(self)@.contains(k)
+    { unimplemented!() }
+    #[verifier::external_body]
+    pub fn remove(&mut self, k: &NamespaceId) -> (r: bool)
+        ensures final(self)@ == old(self)@.remove(*k), r == old(self)@.contains(*k)
+    { unimplemented!() }
+}
+
 pub struct Tables {
     pub records: RecordsTbl,
     pub records_by_key: ByKeyTbl,
@@ -282,7 +299,7 @@ pub struct Tables {
 /// `f` exactly once on the tables, returning its result (rule R4 inlines it as `modify_begin()?; let tables = tables_mut(); ..`).
 pub struct Store {
     pub tables: Tables,
-    pub open_replicas: std::collections::HashSet<NamespaceId>,
+    pub open_replicas: OpenSet,
 }
 
 impl Store {
